@@ -8,8 +8,8 @@ Oracle on every new state, against an independent survivor model (routes -> meth
   * RadiRouter.routes, router[name], router[{rule}], router.hooks agree with the survivors;
   * for every probe path x method, resolve() gives the survivor's route, parameters and exactly the hooks whose rule
     is a prefix of the matched rule, outermost first, with the consumed path prefix - on the edited router AND on
-    routers freshly built from the survivors in two orders (a disagreement of a fresh router with the model is an
-    internal error of the harness, not a verdict);
+    routers freshly built from the survivors in two orders (edited and fresh routers agreeing with each other but not
+    with the statement is reported as a lookup defect; a fresh router disagreeing with both is an internal error);
   * through Ombott.__call__: the handler that ran and the (hook, prefix) calls, in order.
 On every transition the model's accept/reject expectation is compared with the real outcome, and a rejected
 operation without specified side effects must leave everything observable (indexes, all probe answers) unchanged.
@@ -402,7 +402,9 @@ def judge_state(om, hist, built=None, rules=None, hooks=None):
             stats.setdefault('outcomes', set()).add(f'{exp[0]}' + (f' with {len(exp[3])} hook(s)' if exp[0] == 'ok' else ''))
             if exp[0] == 'ok':
                 stats['hook_firings'] += len(exp[3])
-            if got != exp:
+            if got != exp and any(observe(fa, path, method, set()) == got for fa, fl in fresh):
+                pass        # reported below as lookup-spec (fresh routers answer the same)
+            elif got != exp:
                 cls = 'resolve'
                 if got[0] == 'ok' and exp[0] == 'ok' and got[:3] == exp[:3]:
                     cls = 'hooks'
@@ -413,7 +415,13 @@ def judge_state(om, hist, built=None, rules=None, hooks=None):
                 probs.append((cls, f'{method} {path}: edited router {got!r}, survivors {exp!r}'))
             for fa, fl in fresh:
                 gf = observe(fa, path, method, set())
-                if gf != exp:
+                if gf != exp and gf == got:
+                    # the edited router and a freshly built one agree with each other but not with the absolute part of the
+                    # statement (which route, which hooks fire for it): a lookup defect, reported under the same oracle
+                    if not any(cl == 'lookup-spec' for cl, _ in probs):
+                        probs.append(('lookup-spec', f'{method} {path}: edited AND freshly built router answer {got!r}; by the statement '
+                                                     f'(matching rule, hooks whose rule is a prefix of it) it must be {exp!r}'))
+                elif gf != exp:
                     internal.append(f'fresh router disagrees with the model on {method} {path}: {gf!r} vs {exp!r} after {hist!r}')
     # through WSGI: handler and hook invocations
     for path in PROBES:
